@@ -2,7 +2,8 @@
 //! configuration files on disk, its log on stdout, signals.
 //! in : [scenario, sessions mask, log level (0 info | 1 debug | 2 trace)] user password
 //!        scenario 1 = interrupt (SIGINT) with live sessions; mask as in c19_front
-//!        scenario 2 = credentials file and log (see `credentials`); scenario 3 = rules file (see `run`)
+//!        scenario 2 = credentials file and log (see `credentials`); scenario 3 = rules file (see `run`);
+//!        scenario 4 = the log of sessions that carry a secret without presenting it to an authenticator (see `quiet_secrets`)
 //!        user / password: the one client written to the credentials file (TOML basic strings, escaped by the harness)
 //! out: [996] | [sessions established mask, goodbye mask (HTTP/1.1: closed by the endpoint; HTTP/2: GOAWAY then end; HTTP/3: QUIC close),
 //!       process exit code (1000 = still running 5 s after the signal), milliseconds from the signal to the exit (capped),
@@ -213,8 +214,124 @@ async fn credentials(f: Vec<u128>, user: String, password: String, wrong: String
         .chain(std::iter::once(label.clone()))
         .filter(|n| n.len() >= 6)
         .collect();
-    let hits = text.lines().filter(|l| needles.iter().any(|n| l.contains(n.as_str()))).count() as u128;
+    // (verbatim, or as the decimal byte array `{:?}` prints for a byte slice)
+    let hits = text.lines().filter(|l| needles.iter().any(|n| crate::caplog::shows(l.as_bytes(), n.as_bytes()))).count() as u128;
     vec![vec![s1, s2, s3, s4, code, text.lines().count() as u128, hits]]
+}
+
+/// scenario 4: the binary's own log of connections whose secrets no authenticator looks at.
+/// in : [4, log to a file (0|1), log level] user password label-at-the-main-host label-at-an-unknown-host
+///        user / password: the configured client; both empty = no credentials file, i.e. no authenticator
+///      the connections made (HTTP/1.1 over TLS unless said otherwise):
+///        1. server name `<label-at-the-main-host>.localhost`, CONNECT to an echo listener without Proxy-Authorization
+///        2. server name `<label-at-an-unknown-host>.otherhost.example` (a host the endpoint does not serve)
+///        3. HTTP/3 over QUIC, server name `localhost`, `CONNECT _check` with Proxy-Authorization: Basic <user:password>
+///           (`canaryuser` and the password given when no client is configured: nobody checks it then)
+/// out: [996] | [status of 1, handshake of 2 answered (0|1), status of 3, exit code after the interrupt, log lines, log lines that
+///       show a needle] [needle index of the first hit (0 password, 1 Basic token, 2 first label, 3 second label)] excerpt of that line
+async fn quiet_secrets(f: Vec<u128>, user: String, password: String, label1: String, label2: String) -> Vec<Tok> {
+    let l = TcpListener::bind("127.0.0.1:0").await.unwrap();
+    let canary = l.local_addr().unwrap();
+    tokio::spawn(async move {
+        loop {
+            if let Ok((mut s, _)) = l.accept().await {
+                tokio::spawn(async move {
+                    let mut buf = [0u8; 1024];
+                    while let Ok(n) = s.read(&mut buf).await {
+                        if n == 0 || s.write_all(&buf[..n]).await.is_err() {
+                            return;
+                        }
+                    }
+                });
+            }
+        }
+    });
+    let Some(mut p) = spawn_full(&user, &password, f[2], true, "", None, f[1] == 1).await else {
+        return vec![vec![996]];
+    };
+    let mut s1 = 0u128;
+    if let Some(mut s) = crate::front::tls_connect(p.addr, &format!("{}.localhost", label1), &[b"http/1.1"]).await {
+        let _ = s.write_all(format!("CONNECT {} HTTP/1.1\r\nHost: x\r\n\r\n", canary).as_bytes()).await;
+        let mut acc = vec![];
+        let mut buf = [0u8; 1024];
+        while !acc.windows(4).any(|w| w == b"\r\n\r\n") {
+            match tokio::time::timeout(Duration::from_secs(3), s.read(&mut buf)).await {
+                Ok(Ok(n)) if n > 0 => acc.extend_from_slice(&buf[..n]),
+                _ => break,
+            }
+        }
+        s1 = String::from_utf8_lossy(&acc).split(' ').nth(1).and_then(|x| x.parse().ok()).unwrap_or(0);
+        if s1 == 200 {
+            let _ = s.write_all(b"x").await;
+            let _ = tokio::time::timeout(Duration::from_secs(2), s.read(&mut buf)).await;
+        }
+    }
+    let mut answered = 0u128;
+    if let Some(mut s) = crate::front::tls_connect(p.addr, &format!("{}.otherhost.example", label2), &[b"http/1.1"]).await {
+        answered = 1;
+        let _ = s.write_all(b"CONNECT _check HTTP/1.1\r\nHost: x\r\n\r\n").await;
+        let mut buf = [0u8; 256];
+        let _ = tokio::time::timeout(Duration::from_millis(300), s.read(&mut buf)).await;
+    }
+    let presented_user = if user.is_empty() { "canaryuser".to_string() } else { user.clone() };
+    let auth = basic(&presented_user, &password);
+    let mut s3 = 0u128;
+    if let Some(mut c) = crate::front::H3Client::connect(p.addr, "localhost").await {
+        let hs = vec![
+            (b":method".to_vec(), b"CONNECT".to_vec()),
+            (b":authority".to_vec(), b"_check".to_vec()),
+            (b"proxy-authorization".to_vec(), auth.clone().into_bytes()),
+            (b"user-agent".to_vec(), b"verif".to_vec()),
+        ];
+        if let Some(id) = c.request(&hs, false) {
+            c.drive(Duration::from_secs(3), |x| x.streams[&id].headers.is_some() || x.streams[&id].reset).await;
+            if c.streams[&id].headers.is_some() {
+                s3 = c.streams[&id].status() as u128;
+            }
+        }
+        c.close();
+        c.drive(Duration::from_millis(100), |_| false).await;
+    }
+    unsafe {
+        libc::kill(p.child.id() as i32, libc::SIGINT);
+    }
+    let mut code = 1000u128;
+    for _ in 0..200 {
+        if let Ok(Some(st)) = p.child.try_wait() {
+            code = st.code().map(|c| c as u128).unwrap_or(999);
+            break;
+        }
+        tokio::time::sleep(Duration::from_millis(25)).await;
+    }
+    tokio::time::sleep(Duration::from_millis(50)).await;
+    let mut log = p.log.lock().unwrap().clone();
+    if let Ok(file) = std::fs::read(p.dir.join("endpoint.log")) {
+        log.extend_from_slice(&file);
+    }
+    let text = String::from_utf8_lossy(&log).to_string();
+    let token = auth.trim_start_matches("Basic ").to_string();
+    let needles = [password.clone(), token, label1.clone(), label2.clone()];
+    let mut hits = 0u128;
+    let mut first: Option<(usize, Vec<u8>)> = None;
+    for l in text.lines() {
+        if let Some(k) = needles.iter().position(|n| n.len() >= 6 && crate::caplog::shows(l.as_bytes(), n.as_bytes())) {
+            hits += 1;
+            if first.is_none() {
+                let nd = needles[k].as_bytes();
+                let dec = crate::caplog::decimal_array(nd);
+                let at = l.find(needles[k].as_str()).or_else(|| l.find(dec.as_str())).unwrap_or(0);
+                let b = l.as_bytes();
+                let from = at.saturating_sub(140);
+                first = Some((k, b[from..b.len().min(from + 280)].to_vec()));
+            }
+        }
+    }
+    let mut out = vec![vec![s1, answered, s3, code, text.lines().count() as u128, hits]];
+    if let Some((k, e)) = first {
+        out.push(vec![k as u128]);
+        out.push(tok(&e));
+    }
+    out
 }
 
 pub fn run(toks: Vec<Tok>) -> Vec<Tok> {
@@ -228,6 +345,9 @@ pub fn run(toks: Vec<Tok>) -> Vec<Tok> {
         let text = toks.get(4).filter(|t| !t.is_empty()).map(|t| String::from_utf8_lossy(&bytes(t)).to_string());
         let label = toks.get(5).map(|t| String::from_utf8_lossy(&bytes(t)).to_string()).unwrap_or_default();
         return rt.block_on(credentials(f, user, password, wrong, text, label));
+    }
+    if f[0] == 4 {
+        return rt.block_on(quiet_secrets(f, user, password, text(3), text(4)));
     }
     if f[0] == 3 {
         // the rules file as the binary reads it: in [3, 0, level] rules-file-text; out as c04_front (TLS)
